@@ -1,14 +1,14 @@
-\* 2 jobs (j1: timeout, survives SIGTERM; j2: no timeout, Popen may fail): exhaustive safety
+\* TWO shutdown callers, 1 job, every pair of modes, every fault: exhaustive safety
 SPECIFICATION Spec
 CONSTANTS
-  Jobs = {j1, j2}
+  Jobs = {j1}
   HasTimeout = {j1}
   IgnoresTerm = {j1}
-  PopenMayFail = {j2}
+  PopenMayFail = {j1}
   PreFix = FALSE
   CoarseCancel = FALSE
-  Modes = {"none", "nowait", "wait"}
-  Modes2 = {"none"}
+  Modes = {"nowait", "wait"}
+  Modes2 = {"nowait", "wait"}
   NeverExits = {}
 VIEW View
 INVARIANTS TypeOK ResultAtMostOnce ResultConsistent TimeoutIsUnknown CancelCoversRegistered ClosedMeansDead
